@@ -3,7 +3,7 @@
    (lexer -> token stream -> parser -> transforms), proofs in proofs/StmtExamples.v. *)
 From Coq Require Import List NArith Bool Arith.
 Import ListNotations.
-From PV Require Import Regex Base LexTables NodeModel ParserBase ParserDecl ParserMain Api StmtExamples AstSpec StmtProofs ElseProofs StmtShape.
+From PV Require Import Regex Base LexTables NodeModel ParserBase ParserDecl ParserMain Api StmtExamples AstSpec StmtProofs ElseProofs StmtShape ParserBase ParserMain StreamLib RoundTrip RoundTripX StmtTrip.
 
 (* the else belongs to the nearest unmatched if (C99 6.8.4.1p3) *)
 Theorem C05_dangling_else :
@@ -85,3 +85,17 @@ Theorem C05_label_attaches_to_next_statement : forall (P: Type) f,
        (p_labeled_statement P (S f)).
 Proof. exact label_attaches_to_next_statement. Qed.
 Print Assumptions C05_label_attaches_to_next_statement.
+
+(* COMPLETENESS at token level (proofs/StmtTrip.v): every brace-free statement x - expression statements, `;`, return /
+   break / continue / goto, if with and without else, while, do-while, for with any of its clauses absent, nested in any
+   way - written as the token sequence [stoks rp x], is parsed by p_pragmacomp_or_statement (the production behind every
+   sub-statement position) to exactly x: each `else` goes to the nearest if that can take it, loop bodies and branches are
+   exactly one statement, nothing is lost or reordered.  Side conditions = C's dangling-else rule (swf, and no `else` after
+   an if without else). *)
+Theorem C05_statements_parse_back : forall (P: Type) rp (x: StmtTrip.st), StmtTrip.swf x ->
+  forall (s: ParserBase.pstate P) le stop l0, RoundTrip.Spell P le (StmtTrip.stoks rp x) -> StreamLib.Up P s (le ++ stop :: l0) ->
+  (StmtTrip.sopen x = true -> kind_eqb (ParserBase.tk stop) K_ELSE = false) ->
+  exists f0 N s', (forall f, (f0 <= f)%nat -> ParserMain.p_pragmacomp_or_statement P f s = ParserBase.Ok (N, s')) /\
+                  StreamLib.Up P s' (stop :: l0) /\ RoundTrip.strip N = StmtTrip.embs x.
+Proof. exact StmtTrip.parse_of_generated_statement. Qed.
+Print Assumptions C05_statements_parse_back.
